@@ -52,6 +52,7 @@ fn run_inner(case: &str, args: &Value) -> Option<Outcome> {
         "c10_complexity" => Some(c10_limits::limits(args)),
         "c10_directives" => Some(c10::directives_case(args)),
         "c33_subtype" => Some(c33::subtype(args)),
+        "c33_build" => Some(c33::build_case(args)),
         "c14_pos" => Some(c14::pos(args)),
         "c12_upload" => Some(c12::upload(args)),
         "c04_serial" => Some(c04::serial(args)),
@@ -90,6 +91,7 @@ pub fn search(case: &str, seed: u64, open: &[String]) -> Option<SearchResult> {
         "c10_depth" | "c10_directives" => Box::new(c10::doc_inputs(seed)),
         "c10_complexity" => Box::new(c10_limits::inputs(seed)),
         "c33_subtype" => Box::new(c33::inputs(seed)),
+        "c33_build" => Box::new(c33::build_inputs(seed, open)),
         "c14_pos" => Box::new(c14::pos_inputs(seed)),
         "c12_upload" => Box::new(c12::upload_inputs(seed)),
         "c04_serial" => Box::new(c04::inputs(seed, open)),
